@@ -201,3 +201,32 @@ def composite_bounds_are_component_bounds_in_order(h, key, n, d):
             h.le(f"change-point {i // 2}: width bounds ordered", wid[0], wid[1])
     for k, b in enumerate(got):
         h.le(f"bounds[{k}]: lower <= upper", b[0], b[1])
+
+
+@unit("C10", quick=[dict(d=1)], thorough=[dict(d=2)], cost=3)
+def sums_leave_their_operands_unchanged(h, d):
+    """kernel objects combined more than once: base = SE + WN is extended in two different ways (base + RQ, base + SE) and
+    added to itself.  Every sum has exactly its own components in order (parameter count, labels, value), and the operands
+    -- base included -- are what they were before being used in a sum"""
+    cv, mn = gc.patch_cov(h)
+    n = 2
+    X = h.real("x", (n, d))
+    se, wn, rq, se2 = cv.SquaredExponential(), cv.WhiteNoise(), cv.RationalQuadratic(), cv.SquaredExponential()
+    base = se + wn
+    a = base + rq
+    b = base + se2
+    c = rq + base
+    dbl = base + base
+    specs = {"base": ("sum", ["SE", "WN"]), "base + RQ": ("sum", ["SE", "WN", "RQ"]), "base + SE": ("sum", ["SE", "WN", "SE"]),
+             "RQ + base": ("sum", ["RQ", "SE", "WN"]), "base + base": ("sum", ["SE", "WN", "SE", "WN"])}
+    for name, K in (("base", base), ("base + RQ", a), ("base + SE", b), ("RQ + base", c), ("base + base", dbl)):
+        spec = specs[name]
+        K.pass_spatial_data(X)
+        h.same(f"{name}: number of hyper-parameters", K.n_params, gc.n_params(spec, n, d))
+        h.same(f"{name}: labels", list(K.hyperpar_labels), gc.labels(spec, n, d))
+        if K.n_params == gc.n_params(spec, n, d):
+            th = gc.theta_for(h, spec, n, d, name="th_" + name.replace(" ", ""))
+            h.eq(f"{name}: build_covariance == sum of its own components", K.build_covariance(th), gc.ref_call(h, spec, X, X, th, same_points=True))
+    for name, K, p in (("SE", se, d + 1), ("WN", wn, 1), ("RQ", rq, d + 2)):
+        K.pass_spatial_data(X)
+        h.same(f"leaf {name} still has its own parameter count", K.n_params, p)
